@@ -73,7 +73,11 @@ func c07Enumerate(tier string, yield func(any)) {
 			yield(&c07Case{Kind: "ku", A: mask, B: cr})
 		}
 	}
-	lists(len(c07SANItems), 3, func(l []int) { yield(&c07Case{Kind: "san", L: append([]int{}, l...)}) })
+	sl := 3
+	if tier == "thorough" {
+		sl = 4
+	}
+	lists(len(c07SANItems), sl, func(l []int) { yield(&c07Case{Kind: "san", L: append([]int{}, l...)}) })
 	for ca := 0; ca < 3; ca++ {
 		for pl := -1; pl <= 255; pl++ {
 			yield(&c07Case{Kind: "bc", A: ca, B: pl})
@@ -83,24 +87,21 @@ func c07Enumerate(tier string, yield func(any)) {
 		}
 	}
 	np := len(c07Policies())
-	maxCP := 1
+	maxCP := 2
+	sanLen, aiaLen := 3, 3
 	if tier == "thorough" {
-		maxCP = 2
+		sanLen, aiaLen = 4, 5
 	}
 	lists(np, maxCP, func(l []int) {
 		if len(l) > 0 {
 			yield(&c07Case{Kind: "cp", L: append([]int{}, l...)})
 		}
 	})
-	if tier != "thorough" { // quick: a diagonal of pairs
-		for i := 0; i < np; i++ {
-			yield(&c07Case{Kind: "cp", L: []int{i, (i*7 + 3) % np}})
-		}
-	}
-	lists(len(c07URIs), 3, func(l []int) { yield(&c07Case{Kind: "aia", L: append([]int{}, l...)}) })
-	maxEKU := 2
+	_ = sanLen
+	lists(len(c07URIs), aiaLen, func(l []int) { yield(&c07Case{Kind: "aia", L: append([]int{}, l...)}) })
+	maxEKU := 3
 	if tier == "thorough" {
-		maxEKU = 3
+		maxEKU = 4
 	}
 	lists(len(c07EKUs), maxEKU, func(l []int) { yield(&c07Case{Kind: "eku", L: append([]int{}, l...)}) })
 	for cr := 0; cr < 3; cr++ {
@@ -230,8 +231,8 @@ func init() {
 	register(&engine.Check{
 		ID:          "C07",
 		Level:       "exploration",
-		Rule:        "keyUsage: all 128 flag subsets x critical 3 (written order varied); subjectAlternativeName: all lists of length 0..3 over {mail,dns,ip} x 2 values (259); basicConstraints: ca {omitted,false,true} x pathLen {omitted, 0..255, 256, 65535, 2^31} (780); certificatePolicies: 27 policy shapes (plain, cps, every userNotice combination of organization x numbers x text, two qualifiers), singles + a pair diagonal (quick) / all pairs (thorough); authorityInformationAccess: lists 0..3 over 2 URIs; extendedKeyUsage: lists 0..2 (quick) / 0..3 (thorough) over 6 names + 2 OIDs; authorityKeyIdentifier: hash (self-signed and under an issuer) and explicit ids of 1,20,32,127,128,768,769,1024 bytes x critical 3; subjectKeyIdentifier hash; ocspNoCheck. Each through a whole run; the emitted body must equal the reference DER encoding written from RFC 5280 / 6960 (DER is canonical, so byte equality = an independent decoder reading back exactly the configured value). non-trivial = distinct case",
-		Bound:       map[string]string{"lists": "<=3 (EKU quick <=2)", "pathLen": "0..255 + 3 large"},
+		Rule:        "keyUsage: all 128 flag subsets x critical 3 (written order varied); subjectAlternativeName: all lists of length 0..3 over {mail,dns,ip} x 2 values (259); basicConstraints: ca {omitted,false,true} x pathLen {omitted, 0..255, 256, 65535, 2^31} (780); certificatePolicies: 27 policy shapes (plain, cps, every userNotice combination of organization x numbers x text, two qualifiers), singles and all pairs; authorityInformationAccess: lists 0..3 (thorough 0..5) over 2 URIs; extendedKeyUsage: lists 0..3 (thorough 0..4) over 6 names + 2 OIDs; subjectAlternativeName lists up to 4 in thorough; authorityKeyIdentifier: hash (self-signed and under an issuer) and explicit ids of 1,20,32,127,128,768,769,1024 bytes x critical 3; subjectKeyIdentifier hash; ocspNoCheck. Each through a whole run; the emitted body must equal the reference DER encoding written from RFC 5280 / 6960 (DER is canonical, so byte equality = an independent decoder reading back exactly the configured value). non-trivial = distinct case",
+		Bound:       map[string]string{"lists": "quick <=3, thorough SAN<=4 AIA<=5 EKU<=4", "pathLen": "0..255 + 3 large"},
 		Assumptions: []string{"a userNotice with neither organization, numbers nor text has no defined encoding and is excluded", "SAN ip octets outside 0..255 are outside the domain (C20 covers the error clause)"},
 		Budget:      budgets(quickBudget, thoroughBudget),
 		Enumerate:   c07Enumerate,
